@@ -110,3 +110,7 @@ Section Tie.
     - cbn. rewrite firstn_all. reflexivity.
   Qed.
 End Tie.
+
+(* ArrayBuilder::extend (the owning builder of the `internals` API) is the same loop *)
+Lemma tie_array_builder_extend : gen_array_builder_extend = gen_extend.
+Proof. reflexivity. Qed.
